@@ -6,5 +6,4 @@ python3-vt -c "import z3; print('z3', z3.get_version_string())"
 cargo kani --version
 cargo +nightly --version
 mkdir -p /var/tmp/verif-work evidence
-python3-vt -m vlib.manifest_gen >/dev/null
 echo setup ok
